@@ -37,6 +37,11 @@ pub const QUERIES: &[&str] = &[
     "(//b|//a)[1]",
     "//*[@x]",
     "/r//*",
+    // name tests through the caller's binding p -> u: the nearest enclosing declaration after every edit
+    "//p:*",
+    "//p:c",
+    "//*[namespace-uri() = 'u']",
+    "//*[namespace::p = 'w']",
 ];
 
 fn walk_attached(doc: &xml_dom::XmlDocument) -> Vec<XmlNode> {
@@ -116,10 +121,18 @@ fn is_positional(q: &str) -> bool {
     q.contains('[') && !q.contains("[@")
 }
 
-fn query_positions(doc: &xml_dom::XmlDocument, q: &str) -> Result<(Vec<String>, bool), String> {
+/// the caller's bindings of every C14 query: p -> u
+pub fn context() -> xml_xpath::eval::model::Context {
+    let mut c = xml_xpath::eval::model::Context::default();
+    c.add_ns(Some("p"), "u");
+    c
+}
+
+pub const WARM_QUERIES: &[&str] = &["//*", "//node()", "//@*|//*", "//a|//b", "//p:*", "//p:c/..", "//*[@x]|//text()", "(//*)[2]", "//*[name() = 'c']/ancestor::*"];
+
+pub fn query_positions(doc: &xml_dom::XmlDocument, q: &str, ctx: &mut xml_xpath::eval::model::Context) -> Result<(Vec<String>, bool), String> {
     let (pos, normalized) = positions(doc);
-    let mut ctx = xml_xpath::eval::model::Context::default();
-    match xml_xpath::query(doc.clone(), q, &mut ctx) {
+    match xml_xpath::query(doc.clone(), q, ctx) {
         Ok(xml_xpath::eval::model::Value::Node(ns)) => {
             let mut out: Vec<String> = vec![];
             for n in ns {
@@ -188,7 +201,7 @@ pub fn order_monitors(l: &Live, queries: &[&str]) -> Vec<(String, String, String
         _ => return out, // not serialisable: C15's concern
     };
     for q in queries {
-        let r = guard(|| (query_positions(&l.doc, q), query_positions(&reparsed, q)));
+        let r = guard(|| (query_positions(&l.doc, q, &mut context()), query_positions(&reparsed, q, &mut context())));
         match r {
             Err(m) => out.push((format!("query-panic/{}", panic_site(&m)), format!("query {} panicked on the edited document", q), "a value".into(), m)),
             Ok((a, b)) => {
@@ -243,6 +256,7 @@ impl Check for C14C {
             InitialDoc { text: "<r><a><c/></a><b/></r>", foreign: None, expanded: false },
             InitialDoc { text: "<r x=\"1\"><a y=\"2\">t</a><b><c/></b></r>", foreign: None, expanded: false },
             InitialDoc { text: "<r><a/>t<!--k--><?p?><b/></r>", foreign: None, expanded: true },
+            InitialDoc { text: "<r xmlns:p=\"u\"><p:a><p:c/></p:a></r>", foreign: None, expanded: true },
         ];
         let frontier = if stage == "bfs0" { (0..docs.len()).map(|i| (i, vec![])).collect() } else { parse_frontier(input) };
         Box::new(DomBfs {
@@ -261,11 +275,13 @@ impl Check for C14C {
             chardata_extra: 0,
             chardata_full: true,
             attach_only: false,
+                attr_names: &["xmlns:p", "xmlns"],
             },
             monitors: Monitors { tree: false, spec: false, order: true, chardata: false, serial: false },
             frontier,
             expand: stage != format!("bfs{}", depth - 1),
             order_queries: QUERIES,
+            warm_queries: WARM_QUERIES,
         })
     }
     fn case_cap(&self, tier: Tier) -> f64 {
@@ -273,9 +289,9 @@ impl Check for C14C {
     }
     fn meta(&self) -> Meta {
         Meta {
-            rule: "explicit-state search over edit histories (as C12) on documents with at least two levels; after every transition two monitors run: (1) along the harness's own pre-order walk of the attached tree (element, then its attributes, then its children) XmlNode::order() is non-zero and strictly increasing; (2) differential: each of 26 node-set queries (all axes, unions in both operand orders, positional predicates on forward and reverse axes, attributes) selects on the edited document the same positions, in the same order, as on XmlDocument::from_raw(document.to_string()) — positions are computed on a walk that merges adjacent character data, as a re-parse does.",
-            bounds_quick: "3 initial documents, history depth 3, 1 created node per history, 26 queries",
-            bounds_thorough: "3 initial documents, history depth 4, 1 created node per history, 26 queries",
+            rule: "explicit-state search over edit histories (as C12) on documents with at least two levels; after every transition two monitors run: (1) along the harness's own pre-order walk of the attached tree (element, then its attributes, then its children) XmlNode::order() is non-zero and strictly increasing; (2) differential: each of 30 node-set queries (all axes, unions in both operand orders, positional predicates on forward and reverse axes, attributes, prefixed name tests through a caller binding, the namespace axis) selects on the edited document the same positions, in the same order, as on XmlDocument::from_raw(document.to_string()) — positions are computed on a walk that merges adjacent character data, as a re-parse does; (3) the same transition is repeated on a document on which 9 queries were evaluated BEFORE the edit with one evaluation context that is kept across the edit: after the edit they must select what they select on the copy that was never queried (set_attribute / remove_attribute also with the names xmlns:p and xmlns, so that in-scope namespaces change under the queries).",
+            bounds_quick: "4 initial documents (one with a namespace declaration and prefixed elements), history depth 3, 1 created node per history, 30 queries",
+            bounds_thorough: "4 initial documents, history depth 4, 1 created node per history, 30 queries",
             assumptions: &["states whose serialization does not re-parse are left to C15"],
             unbounded_total: false,
         }
